@@ -5,9 +5,10 @@ patch="$1"; id="$2"; tier="${3:-quick}"
 d=$(mktemp -d /tmp/seedrun.XXXXXX)
 cp -r /repo/. "$d"/ && rm -rf "$d/.git" && (cd "$d" && git init -q && git add -A >/dev/null 2>&1)
 if ! (cd "$d" && git apply "$patch"); then echo "PATCH-DOES-NOT-APPLY $patch"; rm -rf "$d"; exit 2; fi
-out=$(cd /verif && VERIF_REPO="$d" VERIF_TIMEOUT=${VERIF_TIMEOUT:-1200} ./check "$id" "$tier" 2>&1)
+ROOT="$(cd "$(dirname "$0")/.." && pwd)"
+out=$(cd "$ROOT" && VERIF_REPO="$d" VERIF_TIMEOUT=${VERIF_TIMEOUT:-1200} ./check "$id" "$tier" 2>&1)
 n=$(printf '%s\n' "$out" | grep -c '^VIOLATION')
 echo "== $id $tier $(basename "$patch"): $n violation line(s)"
 printf '%s\n' "$out" | grep -A2 '^VIOLATION' | cut -c1-260 | head -${SEEDRUN_LINES:-9}
 printf '%s\n' "$out" | grep -E "^$id |HARNESS-ERROR|INCONCLUSIVE" | head -3 | cut -c1-200
-key=$(printf '%s' "$d" | cksum | cut -d' ' -f1); rm -rf "/verif/bin/$key" "$d"
+key=$(printf '%s' "$d" | cksum | cut -d' ' -f1); rm -rf "$ROOT/bin/$key" "$d"
